@@ -237,7 +237,7 @@ func c07GenPat(c *sim.Case, label string) c07Pat {
 func TestC07(t *testing.T) {
 	r := sim.NewRun(t, "C07")
 	defer r.Finish()
-	r.Rule = "rule sets x request targets path[?query][#fragment]; exhaustive part: every single-rule set with <=1 excluded and <=1 included pattern from a fixed pool x every target up to a length over {/ a b . ? # :}; random part: 0-3 rules with 0-3 patterns per list and targets to length 8, followed by up to six further requests on the same filter instance whose targets are built from the rules' own patterns. The judged chain holds a mock filter that denies and, behind it, an OIDC filter whose callback (/ab) and logout (/ba) paths are among the enumerated targets. Non-trivial = target has a query or fragment AND some pattern of the rule set matches the full target differently from its path component; distinct = distinct (rules, target)."
+	r.Rule = "rule sets x request targets path[?query][#fragment]; exhaustive part: every single-rule set with <=1 excluded and <=1 included pattern from a fixed pool x every target up to a length over {/ a b . ? # :}; random part: 0-3 rules (a few cases: up to 12) with 0-3 (up to 11) patterns per list and targets to length 8 (a few cases: several KiB), followed by up to six further requests on the same filter instance whose targets are built from the rules' own patterns. The judged chain holds a mock filter that denies and, behind it, an OIDC filter whose callback (/ab) and logout (/ba) paths are among the enumerated targets. Non-trivial = target has a query or fragment AND some pattern of the rule set matches the full target differently from its path component; distinct = distinct (rules, target)."
 	r.Assumptions = []string{
 		"Envoy places path and query together in HttpRequest.path (documented ext_authz behaviour)",
 		"regex leaf semantics = Go RE2 unanchored search, invalid expression = no match (what the code documents by using regexp.MatchString)",
@@ -261,18 +261,21 @@ func TestC07(t *testing.T) {
 		}
 	}
 	random := func(c *sim.Case) {
-		nr := sim.Weighted(c, "nrules", 1, 4, 3, 2)
+		nr := sim.Weighted(c, "nrules", 5, 20, 15, 10, 1, 1, 1, 1, 1, 1, 1, 1, 1) // mostly 0-3, up to 12
 		rules := make([]c07Rule, nr)
 		for i := range rules {
-			for j, n := 0, sim.Pick(c, "nex", 4); j < n; j++ {
+			for j, n := 0, sim.Tail(c, "nex", 4, 12); j < n; j++ {
 				rules[i].Ex = append(rules[i].Ex, c07GenPat(c, "ex"))
 			}
-			for j, n := 0, sim.Pick(c, "nin", 4); j < n; j++ {
+			for j, n := 0, sim.Tail(c, "nin", 4, 12); j < n; j++ {
 				rules[i].In = append(rules[i].In, c07GenPat(c, "in"))
 			}
 		}
 		target := c.Str("target", c07Alpha, 0, 8)
-		if sim.Bool(c, "longtarget") {
+		if sim.Weighted(c, "hugetarget", 15, 1) == 1 {
+			// a few KiB of path and query, as links with state in them have
+			target = "/" + strings.Repeat(c.Str("huge.seg", "ab./", 1, 6), 1+sim.Pick(c, "huge.n", 600)) + sim.PickStr(c, "huge.sep", "?", "#", "") + strings.Repeat(c.Str("huge.q", c07Alpha+"=&", 0, 6), sim.Pick(c, "huge.qn", 600))
+		} else if sim.Bool(c, "longtarget") {
 			target = "/" + c.Str("seg", "ab./", 0, 6) + sim.PickStr(c, "sep", "?", "#", "?#", "#?", "") + c.Str("tail", c07Alpha+"=&", 0, 6)
 			if sim.Weighted(c, "embedded-url", 3, 1) == 1 {
 				target += sim.PickStr(c, "url", "r=https://b/a", "http://a/b", "x://y/.b", "//a/b", "u=a://")
